@@ -250,3 +250,68 @@ Proof.
   replace (b <? 0) with false by (symmetry; apply Z.ltb_ge; lia).
   intros H. rewrite <- (radix_undigits 10 a), <- (radix_undigits 10 b) by lia. rewrite H. reflexivity.
 Qed.
+
+(* ---- the offset column determines the offset ---- *)
+Lemma digit_char_not_space d : 0 <= d -> digit_char d <> 32.
+Proof. intros H. unfold digit_char. destruct (d <? 10) eqn:E; lia. Qed.
+
+Lemma radix_fuel_head b (Hb : 2 <= b) : forall k n acc, 0 <= n ->
+  exists d tl, 0 <= d /\ radix_fuel (S k) b n acc = digit_char d :: tl.
+Proof.
+  induction k as [|k IH]; intros n acc Hn.
+  - rewrite radix_fuel_S. destruct (n / b =? 0).
+    + exists (n mod b), acc. split; [apply Z.mod_pos_bound; lia | reflexivity].
+    + cbn [radix_fuel]. exists (n mod b), acc. split; [apply Z.mod_pos_bound; lia | reflexivity].
+  - rewrite radix_fuel_S. destruct (n / b =? 0).
+    + exists (n mod b), acc. split; [apply Z.mod_pos_bound; lia | reflexivity].
+    + apply IH. apply Z.div_pos; lia.
+Qed.
+
+Lemma dec_head n : 0 <= n -> exists c tl, dec n = c :: tl /\ c <> 32.
+Proof.
+  intros Hn. unfold dec. replace (n <? 0) with false by lia. unfold radix.
+  destruct (radix_fuel_head 10 ltac:(lia) (Z.to_nat (Z.log2 n)) n [] Hn) as (d & tl & Hd & E).
+  exists (digit_char d), tl. split; [exact E | apply digit_char_not_space; exact Hd].
+Qed.
+
+Lemma spaces_S k : (0 < k) -> spaces k = 32 :: spaces (k - 1).
+Proof.
+  intros H. unfold spaces. replace (Z.to_nat k) with (S (Z.to_nat (k - 1))) by lia. reflexivity.
+Qed.
+
+Lemma spaces_nonpos k : k <= 0 -> spaces k = [].
+Proof. intros H. unfold spaces. replace (Z.to_nat k) with O by lia. reflexivity. Qed.
+
+Lemma pad_inj : forall (n : nat) k k' s s', (Z.to_nat k <= n)%nat ->
+  (forall c tl, s = c :: tl -> c <> 32) -> (forall c tl, s' = c :: tl -> c <> 32) -> s <> [] -> s' <> [] ->
+  spaces k ++ s = spaces k' ++ s' -> s = s'.
+Proof.
+  induction n as [|n IH]; intros k k' s s' Hk Hs Hs' Hne Hne' E.
+  - rewrite (spaces_nonpos k) in E by lia. cbn [app] in E.
+    destruct (Z_le_gt_dec k' 0) as [Hle|Hgt]; [rewrite (spaces_nonpos k' Hle) in E; exact E|].
+    rewrite (spaces_S k') in E by lia. cbn [app] in E. destruct s as [|c tl]; [contradiction|].
+    inversion E; subst. exfalso. exact (Hs 32 _ eq_refl eq_refl).
+  - destruct (Z_le_gt_dec k 0) as [Hle|Hgt].
+    + rewrite (spaces_nonpos k Hle) in E. cbn [app] in E.
+      destruct (Z_le_gt_dec k' 0) as [Hle'|Hgt']; [rewrite (spaces_nonpos k' Hle') in E; exact E|].
+      rewrite (spaces_S k') in E by lia. cbn [app] in E. destruct s as [|c tl]; [contradiction|].
+      inversion E; subst. exfalso. exact (Hs 32 _ eq_refl eq_refl).
+    + rewrite (spaces_S k) in E by lia. cbn [app] in E.
+      destruct (Z_le_gt_dec k' 0) as [Hle'|Hgt'].
+      * rewrite (spaces_nonpos k' Hle') in E. cbn [app] in E. destruct s' as [|c tl]; [contradiction|].
+        inversion E; subst. exfalso. exact (Hs' 32 _ eq_refl eq_refl).
+      * rewrite (spaces_S k') in E by lia. cbn [app] in E. inversion E as [E'].
+        apply (IH (k - 1) (k' - 1) s s'); try assumption. lia.
+Qed.
+
+Lemma offset_column_inj a b : 0 <= a -> 0 <= b -> rjust 4 (dec a) = rjust 4 (dec b) -> a = b.
+Proof.
+  intros Ha Hb E. unfold rjust in E.
+  destruct (dec_head a Ha) as (ca & ta & Ea & Hca). destruct (dec_head b Hb) as (cb & tb & Eb & Hcb).
+  apply dec_nonneg_inj; try assumption.
+  apply (pad_inj (Z.to_nat (4 - zlen (dec a))) (4 - zlen (dec a)) (4 - zlen (dec b))); try exact E; try lia.
+  - intros c tl H. rewrite Ea in H. inversion H; subst. exact Hca.
+  - intros c tl H. rewrite Eb in H. inversion H; subst. exact Hcb.
+  - rewrite Ea. discriminate.
+  - rewrite Eb. discriminate.
+Qed.
